@@ -88,6 +88,7 @@ func faultOpts(prop string, thorough bool) (GenOpts, faultEmphasis) {
 		em.Timeout = true
 		o.PoisonJSON = true
 		o.TableIDReuse = true
+		o.CountChange = true
 		em.Kinds = []stopKind{stopFIN, stopRST, stopShortPacket, stopBadSeq, stopERR, stopERR, stopERR, stopEOF, stopCancel,
 			stopHandlerErr, stopMapperErr, stopMapperMiscount, stopUnsupportedEvent, stopInvalidEvent}
 	case "C07":
